@@ -1055,7 +1055,16 @@ def make_endpoint(world: World, node: str, worker: Optional[int] = None, gen: in
             mws.append(make_middleware(world, i, ms))
     if worker is None and cfg.get("client_label_adder"):
         mws.append(_LabelAdder(world))
-    br.add_middlewares(*mws)
+    split = cfg.get("mw_split")
+    if split and len(mws) >= 2:
+        # the stack is built in two steps: with_middlewares / add_middlewares in either combination (both append)
+        k = max(1, min(len(mws) - 1, split[0]))
+        first, second = split[1].split("+")
+        (br.with_middlewares if first == "with" else br.add_middlewares)(*mws[:k])
+        (br.with_middlewares if second == "with" else br.add_middlewares)(*mws[k:])
+        world.fired("middlewares_registered_in_two_steps")
+    else:
+        br.add_middlewares(*mws)
     register_tasks(world, br, worker, late=False, defer_late=defer_late)
     return br
 
@@ -1286,7 +1295,7 @@ def _run_cli_worker(world: World) -> None:
             no_propagate_errors=not cfg.get("propagate", True),
             ack_type=AcknowledgeType(cfg["ack_type"]) if cfg.get("ack_type") else AcknowledgeType.WHEN_SAVED,
             max_tasks_per_child=cfg.get("N"), wait_tasks_timeout=cfg.get("W"), shutdown_timeout=5, workers=1,
-            hardkill_count=cfg.get("hardkill_count", 3),
+            hardkill_count=cfg.get("hardkill_count", 3), max_threadpool_threads=cfg.get("pool_size"),
         )
         ctx.run(wr.start_listen, args)
     finally:
@@ -1322,6 +1331,7 @@ def start_worker(world: World, w: int) -> None:
                 br, receiver_cls=RecReceiver, validate_params=cfg.get("validate_params", True), max_async_tasks=cfg.get("A") or 0,
                 max_prefetch=cfg.get("P", 0), propagate_exceptions=cfg.get("propagate", True), run_startup=False,
                 ack_time=AcknowledgeType(cfg["ack_type"]) if cfg.get("ack_type") else None,
+                sync_workers=cfg.get("pool_size"),
             )
         except BaseException as exc:  # noqa: BLE001
             world.rec("listen_raise" if not isinstance(exc, asyncio.CancelledError) else "listen_return", None, w=w, gen=gen, exc=type(exc).__name__)
@@ -1505,6 +1515,19 @@ async def _main(world: World, client_fn: Any) -> None:
     world.rec("begin", None)
     cctx = contextvars.copy_context()
     cctx.run(NODE.set, "client")
+    for ts in world.tasks:
+        if ts.get("decoy_shared"):
+            # a task with the same name, but another signature, is also declared on the shared broker (global registry): every
+            # broker that has its own task of that name must keep using its own
+            from taskiq.brokers.shared_broker import async_shared_broker
+
+            async def decoy(k: str = "", p0: str = "", p1: str = "", p2: str = "", p3: str = "", q0: str = "", q1: str = "", q2: str = "", **kw: Any) -> str:
+                world.rec("decoy_executed", None, name=ts["name"])
+                return "decoy"
+            decoy.__name__ = decoy.__qualname__ = "decoy_" + ts["name"]
+            decoy.__module__ = TASKS_MODULE
+            async_shared_broker.register_task(decoy, task_name=ts["name"])
+            world.fired("same_name_shared_task")
     if cfg.get("transport") == "inmemory":
         client = make_inmemory(world)
         world.workers[0] = {"gen": 0, "node": "client", "alive": True, "stopped": True, "returned": True}
